@@ -57,6 +57,11 @@ type Exec struct {
 	absDone      map[string]bool
 	funcCells    map[*Cell]FuncV
 	mapCells     map[*Cell]MapV
+	ghostCells   map[*Cell]*Cell
+	wireUnit     *ssa.Function
+	wireDeps     map[string]bool
+	encLog       map[*Cell][]emission
+	ptrAliases   []ptrAlias
 	ghosts       map[string]Val
 	split        splitRun
 	AssumedNotes []string
@@ -539,12 +544,66 @@ func (fr *Frame) term(v Val) (*Term, bool) {
 	return nil, false
 }
 
+// ptrAlias: a pointer to a local cell stored into a location of another cell (p.f = new(T)).
+// Loads of that location return the cell pointer, and whole-value reads see the pointee's
+// current value.
+type ptrAlias struct {
+	cell   *Cell
+	path   []PathEl
+	target PtrV
+}
+
+func samePath(a, b []PathEl) bool {
+	if len(a) != len(b) {
+		return false
+	}
+	for i := range a {
+		if a[i].IsIdx != b[i].IsIdx || a[i].Field != b[i].Field || a[i].Idx != b[i].Idx {
+			return false
+		}
+	}
+	return true
+}
+
+// refreshAliases patches pointer fields of cell c that alias local cells with the pointee's
+// current value.
+func (ex *Exec) refreshAliases(mem Mem, c *Cell, cv *Term) *Term {
+	if c.Dyn || c.Ghost != nil || cv == nil {
+		return cv
+	}
+	for _, al := range ex.ptrAliases {
+		if al.cell != c {
+			continue
+		}
+		if tv := mem[al.target.Cell]; tv != nil && len(al.target.Path) == 0 {
+			func() {
+				defer func() { recover() }()
+				cur, _ := project(cv, c.Typ, al.path)
+				// only while the field still holds a non-nil pointer (it may have been overwritten on some path)
+				nv := PtrRef(PtrSort(al.target.Elem), tv)
+				cv = update(cv, c.Typ, al.path, Ite(PtrIsNil(cur), cur, nv))
+			}()
+		}
+	}
+	return cv
+}
+
+func (fr *Frame) aliasAt(c *Cell, path []PathEl) (PtrV, bool) {
+	for _, al := range fr.ex.ptrAliases {
+		if al.cell == c && samePath(al.path, path) {
+			return al.target, true
+		}
+	}
+	return PtrV{}, false
+}
+
 func (fr *Frame) readPath(c *Cell, path []PathEl) *Term {
 	cv := fr.mem[c]
 	if cv == nil {
 		cv = Sym(fmt.Sprintf("cell!%d!%s", c.ID, c.Name), c.sort())
 		fr.mem[c] = cv
 	}
+	cv = fr.ex.refreshAliases(fr.mem, c, cv)
 	if c.Dyn {
 		if len(path) == 0 {
 			return cv
@@ -570,7 +629,45 @@ func (fr *Frame) store(p PtrV, v *Term) {
 	}
 }
 
+// relGuards strips the conjuncts common to all guards (at a join they only select among the
+// incoming edges).
+func relGuards(gs []*Term) []*Term {
+	if len(gs) < 2 {
+		return gs
+	}
+	common := map[int]bool{}
+	for _, c := range conjuncts(gs[0]) {
+		common[c.id] = true
+	}
+	for _, g := range gs[1:] {
+		here := map[int]bool{}
+		for _, c := range conjuncts(g) {
+			here[c.id] = true
+		}
+		for id := range common {
+			if !here[id] {
+				delete(common, id)
+			}
+		}
+	}
+	if len(common) == 0 {
+		return gs
+	}
+	out := make([]*Term, len(gs))
+	for i, g := range gs {
+		var keep []*Term
+		for _, c := range conjuncts(g) {
+			if !common[c.id] {
+				keep = append(keep, c)
+			}
+		}
+		out[i] = And(keep...)
+	}
+	return out
+}
+
 func mergeMem(gs []*Term, ms []Mem) Mem {
+	gs = relGuards(gs)
 	out := Mem{}
 	for _, m := range ms {
 		for c := range m {
@@ -608,6 +705,7 @@ func mergeVals(gs []*Term, vs []Val) Val {
 	if same {
 		return vs[0]
 	}
+	gs = relGuards(gs)
 	var acc *Term
 	var typ types.Type
 	for i := len(vs) - 1; i >= 0; i-- {
